@@ -12,6 +12,7 @@
 #![allow(unused_imports)]
 
 use std::os::unix::io::RawFd;
+use std::sync::atomic::{AtomicBool, Ordering};
 use std::sync::Mutex;
 
 use nix::sys::wait::{WaitPidFlag, WaitStatus};
@@ -46,9 +47,11 @@ lazy_static! {
 
 pub fn install_sim(sim: Box<dyn SimKernel>) {
     *SIM.lock().unwrap() = Some(sim);
+    SIM_INSTALLED.store(true, Ordering::SeqCst);
 }
 
 pub fn remove_sim() -> Option<Box<dyn SimKernel>> {
+    SIM_INSTALLED.store(false, Ordering::SeqCst);
     SIM.lock().unwrap().take()
 }
 
@@ -58,6 +61,11 @@ struct Ctl {
 }
 
 const CTL_FD_MIN: i32 = 200;
+
+// Read from the SIGCHLD handler as well, which may interrupt the main flow
+// while that is parked inside `rpc` (holding the CTL lock): no lock here.
+static ATTACHED: AtomicBool = AtomicBool::new(false);
+static SIM_INSTALLED: AtomicBool = AtomicBool::new(false);
 
 /// Connect to the simulator if `CICADA_VERIF_CTL` is set. Called first thing
 /// in `main`, before any descriptor limit can be lowered.
@@ -94,6 +102,7 @@ pub fn init() {
         let clock = std::env::var("CICADA_VERIF_CLOCK").map_or(false, |x| x == "1");
         *CTL.lock().unwrap() = Some(Ctl { fd: hi, clock });
         *CTL_PATH.lock().unwrap() = Some(path.clone());
+        ATTACHED.store(true, Ordering::SeqCst);
         // children started by the shell must not inherit the address
         std::env::remove_var("CICADA_VERIF_CTL");
         let msg = format!("hello {} {}", libc::getpid(), libc::getpgid(0));
@@ -102,7 +111,7 @@ pub fn init() {
 }
 
 fn attached() -> bool {
-    CTL.lock().map(|c| c.is_some()).unwrap_or(false)
+    ATTACHED.load(Ordering::SeqCst)
 }
 
 fn die(why: &str) -> ! {
@@ -219,6 +228,7 @@ where
     match &r {
         Ok(ForkResult::Child) => {
             // children never talk to the simulator on the shell's channel
+            ATTACHED.store(false, Ordering::SeqCst);
             if let Ok(mut g) = CTL.lock() {
                 if let Some(c) = g.take() {
                     unsafe { libc::close(c.fd) };
@@ -302,7 +312,7 @@ pub fn waitpid<P: Into<Option<Pid>>>(
 ) -> nix::Result<WaitStatus> {
     let pid: Option<Pid> = pid.into();
     let flags = options.unwrap_or(WaitPidFlag::empty());
-    {
+    if SIM_INSTALLED.load(Ordering::SeqCst) {
         let mut sim = SIM.lock().unwrap();
         if let Some(s) = sim.as_mut() {
             let raw = pid.map_or(-1, |p| p.as_raw());
